@@ -384,6 +384,33 @@ def rule_r3(chk, prog):
                   'rebound): the next tasks are built against the previous '
                   'input, every second adoption re-introduces what the '
                   'previous one removed', loc=dm.loc(c), nontrivial=True)
+    # ... and it is re-pickled on every path on which a pickled base is in
+    # use: the only way around pickle.dumps is "there is no pickled base"
+    np_ = 0
+    for p in enumerate_paths(cfg, cfg.entry, lambda n_: n_ is cfg.exit):
+        if p.end is not cfg.exit:
+            continue
+        np_ += 1
+        dumped = any(
+            n_.kind == 'stmt' and isinstance(n_.ast, ast.Assign)
+            and unparse(n_.ast.targets[0]) == 'self.pickled_exprs'
+            and isinstance(n_.ast.value, ast.Call)
+            and call_name(n_.ast.value) == 'pickle.dumps' for n_ in p.nodes)
+        unused = any((t, pol) in (('self.pickled_exprs is not None', False),
+                                  ('self.pickled_exprs is None', True),
+                                  ('self.pickled_exprs', False),
+                                  ('not self.pickled_exprs', True))
+                     for (t, pol) in p.facts)
+        chk.check('C05.R3', 'strategy_ddmin.TaskGenerator.update',
+                  f'{describe_path(p)}: re-pickled unless no pickled base',
+                  dumped or unused,
+                  'update() can return without re-pickling although a '
+                  'pickled base is in use: after reset() the tasks of the '
+                  'restarted batch are built from the superseded input and '
+                  'their results are adopted as if they had been checked '
+                  'against the current one', loc=dm.loc(upd),
+                  nontrivial=True)
+    chk.floor('C05.R3', 'paths through TaskGenerator.update', np_, 2)
     # the condition under which it is re-pickled mirrors __init__
     init = dm.func('TaskGenerator.__init__')
     sets = [st for st in walk_no_nested(init) if isinstance(st, ast.Assign)
@@ -841,6 +868,21 @@ def rule_r6(chk, prog):
               "worker's candidate", sub)
 
 
+def rule_r11(chk, prog):
+    """The file holds the last accepted input only if the writer, once
+    called, really publishes what it was given (shared with C06.R1)."""
+    from . import c06
+    from .. import fileeffects
+    sub = Check('C06', 'other', 'quick', [], [])
+    chk.guard(c06.rule_r1, sub, prog, fileeffects.inventory(prog))
+    Check.restrict(sub, lambda wh, what: 'rename on every normal path' in
+                   str(what))
+    chk.adopt('C05.R11', 'the writer of the output file replaces it on '
+              'every normal path once it has been called with an accepted '
+              'input: no accepted input is silently kept out of the file '
+              '(shared with C06.R1, publication part)', sub)
+
+
 def rule_r7(chk, prog):
     chk.rule('C05.R7', 'ddmin: what a granularity round returns (the input '
              'after all adoptions of the round) is what the next round, the '
@@ -1132,6 +1174,7 @@ def run(tier):
     chk.guard(rule_r7, chk, prog)
     chk.guard(rule_r8, chk, prog)
     chk.guard(rule_r9, chk, prog)
+    chk.guard(rule_r11, chk, prog)
     extra = None
     if tier == 'thorough':
         from .. import selftest
